@@ -200,3 +200,38 @@ func readLines(path string) [][]byte {
 	}
 	return out
 }
+
+// replay of recorded format events: the same configuration and inputs against the current tree
+func redoFormat(x *runner, path string) {
+	r := vt.Rng(76)
+	for _, line := range readLines(path) {
+		var q map[string]any
+		if err := json.Unmarshal(line, &q); err != nil {
+			vt.Fatal("bad event: %v", err)
+		}
+		k := keySpec{Alg: q["alg"].(string), MainKey: q["key"].(string), Hkdf: q["hkdf"].(string), KeySize: int(q["ks"].(float64)),
+			TagAlg: q["tagAlg"].(string), Tag: int(q["tag"].(float64)), C: int(q["c"].(float64)), UserOff: int(q["off"].(float64))}
+		p, err := newSubtle(k)
+		if err != nil {
+			vt.Fatal("configuration refused: %v", err)
+		}
+		seg := k.C - k.Tag
+		f := seg - k.UserOff - (1 + k.KeySize + 7)
+		aad := vt.Unhex(q["aad"].(string))
+		if q["ev"] == "enc" {
+			pt := vt.Unhex(q["pt"].(string))
+			ct, err := encryptAll(p, r, aad, pt, f, seg)
+			e := cfgEv("enc", k)
+			e["aad"], e["pt"], e["ct"], e["err"] = vt.Hex(aad), vt.Hex(pt), vt.Hex(ct), err != nil
+			x.tw.Emit(e)
+			continue
+		}
+		ct := vt.Unhex(q["ct"].(string))
+		for j := 0; j < 8; j++ { // several read partitions / short-read policies
+			out, cls, pan := decryptAll(p, r, aad, ct, f, seg)
+			d := cfgEv("dec", k)
+			d["aad"], d["ct"], d["out"], d["err"], d["panic"], d["by"] = vt.Hex(aad), vt.Hex(ct), vt.Hex(out), cls, pan, "replay"
+			x.tw.Emit(d)
+		}
+	}
+}
